@@ -585,3 +585,142 @@ func c09rowWindowFromTimes(c *an.Ctx) {
 		}
 	}
 }
+
+func init() {
+	old := All["C09"].Run
+	All["C09"].Run = func(c *an.Ctx) {
+		old(c)
+		c09integerStatsComparedAsIntegers(c)
+	}
+	All["C09"].Rules += " R12"
+	addLevel("C09", "the folding of stored min/max statistics compares integer statistics as int64 (a detour through float64 makes values above 2^53 compare equal and the time tie-break then keeps the wrong one).")
+}
+
+// c09integerStatsComparedAsIntegers — C09.R12.
+func c09integerStatsComparedAsIntegers(c *an.Ctx) {
+	const I = "engine/immutable"
+	r := c.Rule("C09.R12", "K-CONVLINT", I+": minMeta / maxMeta compare int64 statistics as int64, never through float64")
+	for _, spec := range []string{I + ":minMeta", I + ":maxMeta"} {
+		f := fn(r, spec)
+		if f == nil {
+			continue
+		}
+		ints, conv := 0, 0
+		// (helpers of the package called from here count as part of the comparison)
+		bodies := []struct {
+			n    ast.Node
+			info *types.Info
+		}{{f.Body, f.Info}}
+		ast.Inspect(f.Body, func(m ast.Node) bool {
+			if ce, ok := m.(*ast.CallExpr); ok {
+				if cal := an.Callee(f.Info, ce); cal != nil && cal.Pkg() == f.Pkg.Types && !cal.Exported() {
+					if src := c.P.Src(cal); src != nil && src.Decl.Body != nil {
+						bodies = append(bodies, struct {
+							n    ast.Node
+							info *types.Info
+						}{src.Decl.Body, src.Pkg.TypesInfo})
+					}
+				}
+			}
+			return true
+		})
+		for _, b := range bodies {
+			ast.Inspect(b.n, func(m ast.Node) bool {
+				switch x := m.(type) {
+				case *ast.BinaryExpr:
+					switch x.Op.String() {
+					case "<", ">", "<=", ">=", "==":
+						tx, ty := b.info.TypeOf(x.X), b.info.TypeOf(x.Y)
+						if tx != nil && ty != nil && types.Identical(tx, types.Typ[types.Int64]) && types.Identical(ty, types.Typ[types.Int64]) {
+							if _, isLit := ast.Unparen(x.Y).(*ast.BasicLit); !isLit {
+								ints++
+							}
+						}
+					}
+				case *ast.CallExpr:
+					if len(x.Args) == 1 {
+						if tv, ok := b.info.Types[x.Fun]; ok && tv.IsType() && types.Identical(tv.Type, types.Typ[types.Float64]) {
+							if at := b.info.TypeOf(x.Args[0]); at != nil && types.Identical(at, types.Typ[types.Int64]) {
+								conv++
+							}
+						}
+					}
+				}
+				return true
+			})
+		}
+		r.AddSites(ints + conv)
+		if ints == 0 || conv > 0 {
+			r.Fail(f.Name+": integer statistics through float64", c.P.Pos(f.Body.Pos()), "%s has %d comparison(s) between int64 statistics and %d conversion(s) float64(int64): integer extremes above 2^53 compare equal after the conversion, and the equal-value tie-break (earlier time wins) then keeps the wrong candidate", f.Name, ints, conv)
+		}
+	}
+}
+
+func init() {
+	old := All["C09"].Run
+	All["C09"].Run = func(c *an.Ctx) {
+		old(c)
+		c09boundsFollowEveryBlock(c)
+	}
+	All["C09"].Rules += " R13"
+	addLevel("C09", "every out-of-order block that is installed in a series iterator of the rows-based aggregate path first widens the cursor's time bounds (the bucket array is sized from them).")
+}
+
+// c09boundsFollowEveryBlock — C09.R13.  AggTagSetCursor sizes its bucket array from the cursor's
+// minTime/maxTime.  Rows installed without widening the bounds fall outside the array and are
+// folded into a mirrored bucket.
+func c09boundsFollowEveryBlock(c *an.Ctx) {
+	const E = "engine"
+	r := c.Rule("C09.R13", "K-ORDER", E+":(*fileLoopCursor).initOutOfOrderItersByRecord — the iterator is (re)initialised only after the time bounds were widened by the installed rows (unless there are none)")
+	f := fn(r, E+":fileLoopCursor.initOutOfOrderItersByRecord")
+	minT := obj(r, E+":fileLoopCursor.minTime")
+	if f == nil || minT == nil {
+		return
+	}
+	storesMin := func(g *an.Fn, body ast.Node) bool {
+		found := false
+		ast.Inspect(body, func(m ast.Node) bool {
+			if as, ok := m.(*ast.AssignStmt); ok {
+				for _, l := range as.Lhs {
+					if sel, ok := ast.Unparen(l).(*ast.SelectorExpr); ok && g.Info.Uses[sel.Sel] == minT {
+						found = true
+					}
+				}
+			}
+			return true
+		})
+		return found
+	}
+	upd := f.Find(an.MNode("widening of minTime (directly or in a helper)", func(g *an.Fn, m ast.Node) bool {
+		switch x := m.(type) {
+		case *ast.AssignStmt:
+			return storesMin(g, x)
+		case *ast.CallExpr:
+			if cal := an.Callee(g.Info, x); cal != nil && cal.Pkg() == g.Pkg.Types {
+				if src := c.P.Src(cal); src != nil && src.Decl.Body != nil && src.Obj != f.Src.Obj {
+					return storesMin(g, src.Decl.Body)
+				}
+			}
+		}
+		return false
+	}))
+	inits := f.Find(an.MNode("iter.init(record)", func(g *an.Fn, m ast.Node) bool {
+		ce, ok := m.(*ast.CallExpr)
+		if !ok || len(ce.Args) != 1 {
+			return false
+		}
+		sel, ok := ce.Fun.(*ast.SelectorExpr)
+		return ok && sel.Sel.Name == "init"
+	}))
+	r.AddSites(upd.Len() + inits.Len())
+	if upd.Len() == 0 || inits.Len() == 0 {
+		r.Fail(f.Name+": shape", c.P.Pos(f.Body.Pos()), "expected the widening of the time bounds and the iterator initialisation (found %d / %d)", upd.Len(), inits.Len())
+		return
+	}
+	empty := f.EdgesImplyingAny(an.AtomLike(`^0==.*\.RowNums\(\)$`, true), an.AtomLike(`^0!=.*\.RowNums\(\)$`, false))
+	for _, s := range inits.List {
+		if p := f.FPath([]int{f.G.Entry}, s.V, upd.Vs(), empty); p != nil {
+			r.Fail(f.Name+": rows installed without widening the bounds", c.P.Pos(s.Node.Pos()), "the iterator is initialised with rows on a path that does not widen minTime/maxTime; path (lines): %s", f.DescribePath(p))
+		}
+	}
+}
